@@ -1,2 +1,4 @@
 pub mod c01;
+pub mod c04;
 pub mod c11;
+pub mod place;
